@@ -33,11 +33,11 @@ def parse_simple_pauli(str0, tag_circuit=True):
         ret = numqi.sim.Circuit()
         for x,y in tmp0:
             if x=='X':
-                ret.rx(y)
+                ret.X(y)
             elif x=='Y':
-                ret.ry(y)
+                ret.Y(y)
             elif x=='Z':
-                ret.rz(y)
+                ret.Z(y)
     else:
         tmp1 = {'X':numqi.gate.X, 'Y':numqi.gate.Y, 'Z':numqi.gate.Z}
         ret = [(tmp1[x],y) for x,y in tmp0]
